@@ -235,7 +235,8 @@ class Program:
 
     def _pin_paths(self):
         """keep the reviewed spelling of functions whose impl block moved to another module (see canon())"""
-        ref = _ref_paths()
+        refall = _ref_paths()
+        ref = refall.get("paths", {})
         if not ref:
             return
         have = set()
@@ -251,6 +252,46 @@ class Program:
                 r = ref.get(canon(p))
                 if r and r != p and r not in have:
                     ren[p] = r
+        # renamed private functions: a reviewed function that disappeared and an unlisted function of the same
+        # crate with the same signature (impl self type, inputs, output) and the same body skeleton
+        sigs = refall.get("sigs", {})
+        if sigs:
+            known = set(ref.values())
+            now = set(ren.get(p, p) for p in have)
+            by_key = {}
+            for u in self.units.values():
+                if not u.crate.startswith("dashu"):
+                    continue
+                for f in u.fns:
+                    p = ren.get(f["p"], f["p"])
+                    if p in known or f.get("kind") == "Closure" or "{closure" in p:
+                        continue
+                    by_key.setdefault((signature(f), skeleton(f)), []).append(f["p"])
+            # sigs[p] = list of (signature, skeleton) variants, one per build configuration that was frozen
+            cand = {}
+            for p, variants in sigs.items():
+                if p in now or "{closure" in p or p.split("::", 1)[0].lstrip("<") not in self.units:
+                    continue
+                if variants and isinstance(variants[0], str):
+                    variants = [variants]
+                for sg, sk in variants:
+                    for q in by_key.get((sg, sk), []):
+                        cand.setdefault(p, set()).add(q)
+            taken = {}
+            for p, qs in cand.items():
+                if len(qs) == 1:
+                    taken.setdefault(next(iter(qs)), []).append(p)
+            for q, olds in taken.items():
+                if len(olds) == 1:
+                    ren[q] = olds[0]
+            # closures follow their parent
+            for u in self.units.values():
+                for f in u.fns:
+                    p = f["p"]
+                    if "::{closure" in p and p not in ren:
+                        parent, rest = p.split("::{closure", 1)
+                        if parent in ren:
+                            ren[p] = ren[parent] + "::{closure" + rest
         if not ren:
             return
         self.repinned = ren
@@ -297,6 +338,8 @@ def _ref_paths():
                 _REF_PATHS = json.load(fh)
         except OSError:
             _REF_PATHS = {}
+        if "paths" not in _REF_PATHS:
+            _REF_PATHS = {"paths": _REF_PATHS, "sigs": {}}
     return _REF_PATHS
 
 
@@ -384,6 +427,50 @@ def canon(p):
         if last[:1].isupper():
             return "%s||%s%s" % (owner2, meth, suffix)
     return "%s|fn|%s%s" % (parts[0], parts[-1], suffix)
+
+
+def signature(f):
+    """location- and name-independent signature of a function: crate, self type / trait of its impl, inputs, output"""
+    return "%s|%s|%s|%s|%s" % (f.get("crate"), f.get("self_ty") or "", (f.get("trait") or "").split("<")[0], ",".join(f.get("inputs", [])), f.get("output", ""))
+
+
+def skeleton(f):
+    """order-insensitive shape of a body: primitive operations, aggregates, *external* callees by name, the
+    number of calls into the dashu crates, switches and blocks.  Names of dashu functions are left out on
+    purpose (they may have been renamed in the same change)."""
+    b = f.get("mir")
+    if not b:
+        return ""
+    from collections import Counter
+    c = Counter()
+    for bb in b["bbs"]:
+        if bb.get("cu"):
+            continue
+        for st in bb["s"]:
+            if st["k"] == "as":
+                rv = st["rv"]
+                k = rv["k"]
+                if k in ("bin", "un"):
+                    c[k + ":" + rv["op"]] += 1
+                elif k == "agg":
+                    c["agg:%s:%s" % (rv.get("adt") or rv.get("ak"), rv.get("vn"))] += 1
+                elif k == "cast":
+                    c["cast:" + str(rv.get("ck"))] += 1
+                else:
+                    c[k] += 1
+        t = bb["t"]
+        if t["k"] == "call":
+            fop = t.get("f") or {}
+            cc = fop.get("c") or {}
+            fr = cc.get("fn") or {}
+            cp = fr.get("rp") or fr.get("p") or "?"
+            if cp.split("::", 1)[0].lstrip("<").startswith("dashu"):
+                c["call:dashu"] += 1
+            else:
+                c["call:" + cp] += 1
+        else:
+            c["t:" + t["k"]] += 1
+    return ";".join("%s=%d" % kv for kv in sorted(c.items()))
 
 
 def in_table(path, table):
